@@ -379,7 +379,63 @@ def fstring_sources(ctx, n):
     return out
 
 
+def strings_only(text):
+    """the text tokenizes to (byte / plain) string literals and nothing else — or does not tokenize at all"""
+    toks = tokens_of(text)
+    if toks is None:
+        return True
+    return all(ty in (tokenize.NEWLINE, tokenize.NL, tokenize.ENDMARKER) or (ty == tokenize.STRING and not s.lower().lstrip('rbu').startswith('f'))
+               for ty, s in toks)
+
+
+def fstring_literal_stage(ctx, max_len, sample):
+    """f_string.Str / Bytes on every short string over an adversarial alphabet x every ordered choice of allowed quotes x both
+    grammars: whatever they hand to eval must be string literals only (the spy classifies the text first and never evaluates anything else)"""
+    import python_minifier.f_string as F
+    alphabet = ["'", '"', 'a', '+', '\n', '\\', ' ', '(', '\r']
+    orders = [list(p) for k in (1, 2, 3, 4) for p in itertools.permutations(QUOTES, k)]
+    values = [''.join(t) for n in range(1, max_len + 1) for t in itertools.product(alphabet, repeat=n)]
+    if sample is not None and len(values) > sample:
+        values = values[:len(alphabet) ** 2 + len(alphabet)] + ctx.rng.sample(values[len(alphabet) ** 2 + len(alphabet):], sample)
+    else:
+        ctx.exhaustive['fstring_nested_literals_len_le_%d_x_64_quote_orders_x_2' % max_len] = len(values) * len(orders) * 2
+    bad = []
+    orig = builtins.eval
+    texts = [0]
+
+    def guarded(text, *a, **k):
+        texts[0] += 1
+        if not isinstance(text, str) or not strings_only(text):
+            bad.append(text)
+            raise SyntaxError('pmv: not evaluated')
+        return orig(text, *a, **k)
+    builtins.eval = guarded
+    try:
+        for v in values:
+            if ctx.time_left() < 20:
+                ctx.notes.append('fstring literal stage stopped by budget')
+                break
+            for allowed in orders:
+                for pep in (True, False):
+                    for cls, val in ((F.Str, v), (F.Bytes, v.encode('latin-1'))):
+                        n0 = len(bad)
+                        try:
+                            str(cls(val, list(allowed), pep))
+                        except Exception:
+                            pass
+                        ctx.count()
+                        if len(bad) > n0:
+                            ctx.add_violation({'input': {'value': [ord(c) for c in v], 'allowed_quotes': allowed, 'pep701': pep, 'class': cls.__name__},
+                                               'what': '%s hands %r to eval, which is not only string literals' % (cls.__name__, bad[-1][:120]),
+                                               'found_by': 'fstring-literals', 'oracle': 'fstring-literals'})
+            ctx.mark_nontrivial('fsl:' + v)
+    finally:
+        builtins.eval = orig
+    ctx.stage('fstring-literals', values=len(values), quote_orders=len(orders), eval_texts=texts[0], not_literal=len(bad))
+
+
 def run(ctx):
+    fstring_literal_stage(ctx, ctx.scale(3, 5), ctx.scale(150, None))
     strings = [''.join(t) for n in (1, 2, 3) for t in itertools.product(ALPHABET, repeat=n)]
     if ctx.tier == 'quick':
         strings = strings[:110] + ctx.rng.sample(strings[110:], 250)
@@ -409,7 +465,32 @@ def search(ctx):
         audit_stage(ctx, fstring_sources(ctx, 4000))
 
 
+def replay_fstring_literal(data):
+    import python_minifier.f_string as F
+    i = data['input']
+    v = ''.join(chr(c) for c in i['value'])
+    bad = []
+    orig = builtins.eval
+
+    def guarded(text, *a, **k):
+        if not isinstance(text, str) or not strings_only(text):
+            bad.append(text)
+            raise SyntaxError('pmv: not evaluated')
+        return orig(text, *a, **k)
+    builtins.eval = guarded
+    try:
+        try:
+            str((F.Str if i['class'] == 'Str' else F.Bytes)(v if i['class'] == 'Str' else v.encode('latin-1'), list(i['allowed_quotes']), i['pep701']))
+        except Exception:
+            pass
+    finally:
+        builtins.eval = orig
+    return bool(bad)
+
+
 def replay(ctx, data):
+    if data.get('oracle') == 'fstring-literals':
+        return replay_fstring_literal(data)
     inp = data.get('input') or {}
     n0 = len(ctx.violations)
     if 'string' in inp:
